@@ -534,14 +534,15 @@ func (e *FloatExp) MarshalJSON() ([]byte, error) {
 	return appendJsonFloat(buf[:0], e.Value), nil
 }
 
-// appendJsonFloat formats a float the way encoding/json does: exponent form
-// only for very small or very large magnitudes.  In particular a value which
-// is an integer is written as one, so that an integral float literal bound
-// to an int parameter is delivered as something the int validator accepts
-// (1234567.0 would be "1.234567e+06" with %g).
+// appendJsonFloat formats a float with an exponent only for very small or
+// very large magnitudes.  In particular a value which is an integer that an
+// int can hold is written as one, so that an integral float literal bound to
+// an int parameter is delivered as something the int validator accepts
+// (1234567.0 would be "1.234567e+06" with %g).  From 2^63 on the exponent
+// form is kept: a longer run of digits could not be read back as MRO.
 func appendJsonFloat(b []byte, f float64) []byte {
 	format := byte('f')
-	if abs := math.Abs(f); abs != 0 && (abs < 1e-6 || abs >= 1e21) {
+	if abs := math.Abs(f); abs != 0 && (abs < 1e-6 || abs >= 1<<63) {
 		format = 'e'
 	}
 	return strconv.AppendFloat(b, f, format, -1, 64)
